@@ -112,7 +112,7 @@ namespace EmitModel.Driver.C05
 open EmitModel EmitModel.SpanGuard
 
 /-  stream `c05m` : (c05m FORM LVL OK ERR MAPPED PAN ENABLED EXIT (clock R…))
-        FORM ::= sync | async | gdrop | gcomplete | block ; LVL,OK,ERR,PAN ::= none | debug|info|warn|error
+        FORM ::= sync | async | gdrop | gcomplete | block | bunstarted | blate ; LVL,OK,ERR,PAN ::= none | debug|info|warn|error
         EXIT ::= ok | early | qerr | reterr | panic
     → ret=<ok1|ok2|ok7|err|panic> events=(…) -/
 
@@ -134,7 +134,8 @@ def runC05m (line : String) : String :=
     match optAtom? lvl, optAtom? ok, optAtom? err, mapped.bool?, optAtom? pan, en.bool?, rs.mapM reading? with
     | some lvl, some ok, some err, some mapped, some pan, some enabled, some clk =>
       let isFn := form == "sync" || form == "async"
-      let formOk := isFn || ((form == "gdrop" || form == "gcomplete" || form == "block") && ok.isNone && err.isNone && !mapped)
+      let formOk := isFn || ((form == "gdrop" || form == "gcomplete" || form == "block" || form == "bunstarted" || form == "blate")
+        && ok.isNone && err.isNone && !mapped)
       let exit? : Option (Exit × String) :=
         if exit == "ok" then some (.ok, if isFn then "ok1" else "ok7")
         else if exit == "early" && isFn then some (.ok, "ok2")
@@ -144,8 +145,15 @@ def runC05m (line : String) : String :=
       match formOk, exit? with
       | true, some (ex, ret) =>
         let cfg : MacroCfg := ⟨lvl, ok, err, mapped, mapped, pan, form == "gcomplete"⟩
-        let evs := macroRun cfg enabled ex clk "hcore::streams::c05m::fixtures" "fx {n}" "fx {n}"
-          (if mapped then "inner-boom" else "boom") []
+        -- `blate`: the body reads the clock once before it starts the guard (that reading is not the span's)
+        let clk := if form == "blate" then (now clk).2 else clk
+        let evs :=
+          if form == "bunstarted" then
+            -- the guard is dropped (normally or by the panic) without ever having been started
+            (run (new enabled compDefault ⟨"hcore::streams::c05m::fixtures", "fx {n}", []⟩) clk [.drop]).1.map
+              (macroEvent cfg ex "fx {n}" "boom" [] none)
+          else macroRun cfg enabled ex clk "hcore::streams::c05m::fixtures" "fx {n}" "fx {n}"
+            (if mapped then "inner-boom" else "boom") []
         s!"ret={ret} events=({" ".intercalate (evs.map showMacroEvent)})\tform={form},res={cfg.useResult},en={enabled},exit={exit}"
       | _, _ => "bad-op"
     | _, _, _, _, _, _, _ => "bad-op"
